@@ -377,7 +377,7 @@ def main(prop, tier, base_seed, jobs=None, runs=None, budget_s=None, digest_out=
         pending = {}
         it = iter(chunks)
         deadline = t_start + budget
-        hard_deadline = deadline + max(120, budget)
+        hard_deadline = deadline + max(900, 3 * budget)
         def submit_next():
             if time.time() > deadline:
                 return False
